@@ -71,5 +71,4 @@ def run(prop, tier, replay):
     return rep.finish(cov, assumptions=[
         "1 tick = 1 ms; PT/dt within 32-bit ms; LINT/ULINT/UDINT upper saturation bounds are outside TLC's integers and not exercised",
         "ET is compared only where the property constrains it (<= PT always; exact while timing)",
-        "TON through the FB executor after PT was raised past an already clamped ET is counted as inconclusive (struct and executor paths of the repository disagree)",
         "first call of F_TRIG with CLK = FALSE accepted either way"])
